@@ -419,7 +419,7 @@ def run(ctx):
     witnesses(ctx)
     known_findings(ctx)
     dup_name_cases(ctx, 6 if ctx.quick else 80)
-    pt_arrangements(ctx, 40 if ctx.quick else 500, 3, 3 if ctx.quick else 4)
+    pt_arrangements(ctx, 40 if ctx.quick else 350, 3, 3 if ctx.quick else 4)
     ctx.log('property test done')
     total = 12 if ctx.quick else 150
     done = 0
